@@ -930,3 +930,73 @@ def replay_heap(run, body):
 
 
 REPLAYERS["heap"] = replay_heap
+
+
+# =============================================================== C19 concurrency (Threads)
+
+@check("C19")
+def c19(run):
+    run.rule = ("L1: Threads.tla models every listed operation as a sequence of atomic reads/writes of the shared token's cells (symbol "
+                "slots, spare symbol capacity, stored block bytes, spare capacity behind them) for 3 goroutines, all interleavings, all "
+                "spare-capacity situations; NoRace and TokenReadOnly hold with fresh verification buffers and deep symbol copies and are "
+                "refuted for each mechanism of the pinned tree. L2: every multiset of 3 operations exported by TLC (plus shared-Parser and "
+                "shared parsed values) runs concurrently, repeated, in a -race build on a token obtained from Unmarshal; a race report "
+                "(halt_on_error) or a result different from the sequential one is the violation. L2b: heap histories of C08 replayed "
+                "after concurrent siblings. Non-trivial = distinct operation multisets.")
+    run.assumptions = ["absence of races in the code is observed by Go's race detector on real schedules (sampling); the model decides the sharing design",
+                       "the race detector only sees races that actually execute in a repetition (20-60 repetitions per multiset)"]
+    r = core.tlc(run.work, "Threads", "Threads_fixed")
+    run.add_tlc(r, "L1 NoRace / TokenReadOnly, all interleavings + export")
+    for neg in ("neg_buffer", "neg_clone"):
+        rn = core.tlc(run.work, "Threads", "Threads_" + neg, expect_violation=True)
+        run.add_tlc(rn, "negative model " + neg)
+        if not rn.violated:
+            raise Infra("negative model Threads_%s holds" % neg)
+        run.notes.append("negative model %s: TLC reports %s violated" % (neg, rn.violated))
+    driver = core.build_driver(run.work, race=True)
+    seen, cases = set(), []
+    for c in r.cases:
+        key = tuple(sorted(c["ops"]))
+        if key in seen:
+            continue
+        seen.add(key)
+        cases.append({"id": "c%d" % len(cases), "ops": list(c["ops"]), "reps": 25 if run.tier == "quick" else 120, "nblocks": 2, "emb": emb_of(run, len(cases))})
+    extra = [["parse", "parse", "parse"], ["parse", "authorize", "build"], ["authorize", "authorize", "authorize", "authorize"],
+             ["verify", "verify", "verify", "verify", "seal", "append"], ["build", "build", "getid", "getid", "append", "append"]]
+    for ops in extra:
+        cases.append({"id": "c%d" % len(cases), "ops": ops, "reps": 40 if run.tier == "quick" else 200, "nblocks": 1 + len(cases) % 4, "emb": emb_of(run, len(cases))})
+    res = core.run_driver(driver, "conc", cases, nproc=8, env={"GORACE": "halt_on_error=1 exitcode=66"}, per_case_timeout=300)
+    for c in cases:
+        o = res[c["id"]]
+        run.count(" ".join(sorted(c["ops"])))
+        if o.get("crash"):
+            err = o.get("stderr", "")
+            if "DATA RACE" in err:
+                import re
+                locs = re.findall(r"(/repo/[\w/\.]+\.go:\d+)", err)
+                where = locs[0] if locs else "?"
+                run.report({"race_at": where.replace("/repo/", "")}, c, "conc", "DATA RACE at %s while running %s concurrently on one token" % (where, c["ops"]),
+                           (lambda c=c: any(core.run_driver(driver, "conc", [dict(c)], nproc=1, env={"GORACE": "halt_on_error=1 exitcode=66"})[c["id"]].get("crash") for _ in range(3))))
+            else:
+                run.report({"crash": err[-200:]}, c, "conc", "process died running %s: %s" % (c["ops"], err[-400:]))
+        elif o.get("bad"):
+            run.report({"ops": " ".join(sorted(c["ops"])), "what": "result differs"}, c, "conc", "%s: %s" % (c["ops"], "; ".join(o["bad"][:3])),
+                       (lambda c=c: any(core.run_driver(driver, "conc", [dict(c)], nproc=1)[c["id"]].get("bad") for _ in range(3))))
+        elif "bad" not in o:
+            raise Infra("conc driver: " + json.dumps(o)[:300])
+    run.traces += len(cases)
+    run.sample({"concurrent_ops": cases[7]["ops"], "repetitions": cases[7]["reps"]})
+
+
+def replay_conc(run, body):
+    driver = core.build_driver(run.work, race=True)
+    c = dict(body["case"])
+    run.count("replay")
+    for _ in range(3):
+        o = core.run_driver(driver, "conc", [dict(c)], nproc=1, env={"GORACE": "halt_on_error=1 exitcode=66"})[str(c["id"])]
+        if o.get("crash") or o.get("bad"):
+            run.report(body["sig"], c, "conc", "replayed: %s" % (o.get("stderr", "")[-300:] or o.get("bad")))
+            return
+
+
+REPLAYERS["conc"] = replay_conc
